@@ -19,12 +19,19 @@ CORPUS = [
         f'<svg xmlns="http://www.w3.org/2000/svg" viewBox="0 0 100 100"><defs>{GRAD}</defs><path d="M50,10 L90,90 L10,90 Z" fill="url(#g)"/></svg>',
         f'<svg xmlns="http://www.w3.org/2000/svg" viewBox="0 0 100 100"><defs>{GRAD}</defs><path d="M20,20 L80,20 L80,80 L20,80 Z" fill="url(#g)" opacity="0.5"/><path d="M10,50 L50,90 L10,90 Z" fill="red"/></svg>',
     ]),
+    # glyphs that share nothing, whose glyph-name order differs from their input order: the SVG records must
+    # still come in glyph-id order
+    ("unshared-name-order", ["picosvg", "untouchedsvg"], [
+        '<svg xmlns="http://www.w3.org/2000/svg" viewBox="0 0 100 100"><path d="M10,10 L90,10 L90,90 L10,90 Z" fill="red"/></svg>',
+        '<svg xmlns="http://www.w3.org/2000/svg" viewBox="0 0 100 100"><path d="M50,10 L90,90 L10,90 Z" fill="blue"/></svg>',
+        '<svg xmlns="http://www.w3.org/2000/svg" viewBox="0 0 100 100"><path d="M10,50 L50,10 L90,50 L50,95 Z" fill="#00ff00"/></svg>',
+    ], [(0x1F600,), (0x42,), (0x2A, 0xFE0F)]),
 ]
 
 
 def run_e2e(report, n_fonts, rng):
     lits, metas = [], []
-    plan = [(fmt, name, texts) for name, fmts, texts in CORPUS for fmt in fmts] + [(ALL_FORMATS[i % len(ALL_FORMATS)], None, None) for i in range(n_fonts)]
+    plan = [(fmt, c[0], (c[2], c[3] if len(c) > 3 else None)) for c in CORPUS for fmt in c[1]] + [(ALL_FORMATS[i % len(ALL_FORMATS)], None, None) for i in range(n_fonts)]
     for i, (fmt, corpus_name, corpus_texts) in enumerate(plan):
         bitmap = fmt in ("cbdt", "sbix")
         over = e2e.gen_config(rng, fmt)
@@ -34,7 +41,9 @@ def run_e2e(report, n_fonts, rng):
             over["bitmap_resolution"] = 32
         if corpus_texts is not None:
             over = dict(color_format=fmt, output_file="Font.ttf")
-            srcs = [(build.filename_for((0x1F600 + k,)), t, (0x1F600 + k,)) for k, t in enumerate(corpus_texts)]
+            texts, cps_list = corpus_texts
+            cps_list = cps_list or [(0x1F600 + k,) for k in range(len(texts))]
+            srcs = [(build.filename_for(c), t, c) for t, c in zip(texts, cps_list)]
         elif rng.random() < 0.5:
             docs, srcs = e2e.gen_sources(rng, n=rng.randint(1, 6), var_opaque=fmt.endswith("_0"))
             if rng.random() < 0.5:  # sequences too, so GSUB is present while glyphs are reshuffled
